@@ -38,6 +38,9 @@ func checkC18(c *Ctx) {
 	c.Rule("C18-R10", "InjectKey delivers the key event it was asked for: built from the key, rune and modifiers given, unchanged")
 	c.Expect("C18-R10", 1)
 	checkInjectKeyVerbatim(c, p, "C18-R10")
+	c.Rule("C18-R11", "the same fallback rules as a real screen: both encoders consult the fallback table only while nothing has been written for the cell (the main rune); a combining rune the character set lacks is elided even when a fallback is registered for it")
+	c.Expect("C18-R11", 2)
+	checkFallbackOnlyForMainRune(c, p, "C18-R11")
 	c.Rule("C18-R8", "the simulation's ShowCursor remembers the requested position as given")
 	c.Expect("C18-R8", 1)
 	checkShowCursorStoresRequest(c, p, "C18-R8", "simscreen")
